@@ -17,8 +17,9 @@ def run(ctx, proofs):
     propeng.verdict(ctx, proofs, r, kinds=("value", "degree", None),
                     known_classes=("phi-missing-default", "ctl-merge", "array-degree"),
                     extra_cov={"budgets": BUDGETS,
-                               "open_statements": ["C20_mirror_validated_at_every_budget_full_statement: proved per explored definition by "
-                                                   "running the verified validator at every budget, not yet for all graphs"]})
+                               "open_statements": ["the universal theorem C20_mirror_validated_at_every_budget covers value claims; the "
+                                                   "corresponding statement for degree ranges (SemDeg-validity at every budget) is established "
+                                                   "per explored definition by the finite-difference oracle only"]})
 
 
 def replay(ctx, rep):
